@@ -233,10 +233,16 @@ func (res *Resource) AddVersion(version string, available, currentRelease, preRe
 		}
 	}
 
+	// parse to semver
+	sv, err := semver.NewVersion(version)
+	if err != nil {
+		return err
+	}
+
 	var rv *ResourceVersion
-	// check for existing version
+	// check for existing version, using the normalized version
 	for _, possibleMatch := range res.Versions {
-		if possibleMatch.VersionNumber == version {
+		if possibleMatch.VersionNumber == sv.String() {
 			rv = possibleMatch
 			break
 		}
@@ -244,12 +250,6 @@ func (res *Resource) AddVersion(version string, available, currentRelease, preRe
 
 	// create new version if none found
 	if rv == nil {
-		// parse to semver
-		sv, err := semver.NewVersion(version)
-		if err != nil {
-			return err
-		}
-
 		rv = &ResourceVersion{
 			resource:      res,
 			VersionNumber: sv.String(), // Use normalized version.
